@@ -650,6 +650,21 @@ Proof.
 Qed.
 Print Assumptions c13_unloaded_offsets_determined.
 
+(* ... so the map IS a function of that set: two frames (of one dump or of two; any visiting orders, any profiles) whose overlapping
+   modules give the same set of (name, instruction - base) pairs get the same map, byte for byte (ksorted_ext: a strictly sorted map
+   without empty entries is determined by what it lists) *)
+Theorem c13_unloaded_offsets_function_of_pair_set :
+  forall (p1 p2 : profile) (perm1 perm2 : list umod -> list umod) (addr1 addr2 : Z) (l1 l2 : list umod),
+  (forall h, Permutation (perm1 h) h) -> (forall h, Permutation (perm2 h) h) -> umods_wf l1 -> umods_wf l2 ->
+  (forall n x, (exists u, In u l1 /\ u_contains addr1 u = true /\ u_name u = n /\ x = addr1 - u_base u) <->
+               (exists u, In u l2 /\ u_contains addr2 u = true /\ u_name u = n /\ x = addr2 - u_base u)) ->
+  frame_offsets p1 perm1 addr1 l1 = frame_offsets p2 perm2 addr2 l2.
+Proof.
+  intros p1 p2 perm1 perm2 addr1 addr2 l1 l2 H1 H2 W1 W2 E. apply frame_offsets_same_pairs; try assumption.
+  intros n x. rewrite !hit_pairs_in. apply E.
+Qed.
+Print Assumptions c13_unloaded_offsets_function_of_pair_set.
+
 (* what reaches the loop is all of the stream or nothing: one entry with size 0 or a range past u64::MAX and NO frame of the
    report lists an unloaded module (the reader's `return Err(ModuleReadFailure)`; compared on the U cases) *)
 Theorem c13_unloaded_stream_all_or_nothing :
@@ -747,6 +762,19 @@ Theorem c13_cert_greatest_wins :
   end.
 Proof. intros C M meqb cltb Hi Ht. exact (@cert_greatest_wins C M meqb cltb Hi Ht). Qed.
 Print Assumptions c13_cert_greatest_wins.
+
+(* ... and from the MEMBERS of the JSON object, for every iteration order of the HashMap: the member that counts for a name is the last
+   one written (last_member); the module gets the greatest name whose counting member lists it *)
+Theorem c13_cert_pipeline_spec :
+  forall (perm : list (bytes * list bytes) -> list (bytes * list bytes)) (members : list (bytes * list bytes)) (module : bytes),
+  (forall m, Permutation (perm m) m) ->
+  match cert_pipeline perm members module with
+  | None => forall c ms, last_member bytes_eqb c members = Some ms -> existsb (bytes_eqb module) ms = false
+  | Some c => (exists ms, last_member bytes_eqb c members = Some ms /\ existsb (bytes_eqb module) ms = true) /\
+              forall c' ms', last_member bytes_eqb c' members = Some ms' -> existsb (bytes_eqb module) ms' = true -> bytes_ltb c c' = false
+  end.
+Proof. exact cert_pipeline_spec. Qed.
+Print Assumptions c13_cert_pipeline_spec.
 
 Example c13_nonvacuous_cert_greatest :
   cert_pipeline (@rev _) [([97], [[109]]); ([98], [[109]; [120]])] [109] = Some [98] /\
